@@ -174,7 +174,7 @@ theorem drop_takeWhile_length {α : Type} (p : α → Bool) (xs : List α) :
   induction xs with
   | nil => rfl
   | cons a xs ih =>
-    cases hpa : p a <;> simp [List.dropWhile_cons, hpa, ih]
+    cases hpa : p a <;> simp [hpa, ih]
 
 theorem takeWhile_length_mono {α : Type} (p q : α → Bool) (xs : List α)
     (h : ∀ x ∈ xs, p x = true → q x = true) : (xs.takeWhile p).length ≤ (xs.takeWhile q).length := by
